@@ -306,7 +306,7 @@ class CommandStack(object):
     @top.setter
     def top(self, command):
         index = self.stack_index + 1
-        self.stack[index:index] = [command]
+        self.stack[index:] = [command]  # the undone commands are discarded
         self.stack_index = index
 
     @top.deleter
